@@ -123,6 +123,7 @@ def canonicalise(tree: ast.AST) -> ast.AST:
       * `tmp = E; return tmp` (tmp used nowhere else)            ->  `return E`
       * `if not C: B else: A` (a real else, not an elif chain)   ->  `if C: A else: B`
       * `K <op> X` with a literal K on the left                  ->  `X <flipped op> K`
+      * `with contextlib.suppress(E): B`                          ->  `try: B / except E: pass`
     Line numbers of the surviving nodes are kept."""
 
     def only_return_temp(fn: ast.AST, name: str) -> bool:
@@ -184,6 +185,21 @@ def canonicalise(tree: ast.AST) -> ast.AST:
                 if isinstance(blk, list) and blk and isinstance(blk[0], ast.stmt):
                     setattr(node, fld, fix_block(blk, self.fn if not isinstance(node, ast.FunctionDef) else node))
             return node
+
+        def visit_With(self, n):
+            self.generic_visit(n)
+            # with contextlib.suppress(E, ...): body   ->   try: body / except (E, ...): pass
+            if len(n.items) == 1 and n.items[0].optional_vars is None and isinstance(n.items[0].context_expr, ast.Call):
+                c = n.items[0].context_expr
+                if norm(c.func) in ("contextlib.suppress", "suppress") and c.args and not c.keywords and not any(isinstance(a, ast.Starred) for a in c.args):
+                    typ = c.args[0] if len(c.args) == 1 else ast.Tuple(elts=list(c.args), ctx=ast.Load())
+                    h = ast.ExceptHandler(type=typ, name=None, body=[ast.Pass()])
+                    t = ast.Try(body=n.body, handlers=[h], orelse=[], finalbody=[])
+                    ast.copy_location(t, n)
+                    ast.copy_location(h, n)
+                    ast.copy_location(h.body[0], n)
+                    return t
+            return n
 
         def visit_If(self, n):
             self.generic_visit(n)
@@ -692,6 +708,70 @@ class Program:
             elif isinstance(st, ast.Global) and name in st.names:
                 return None
         return v if binds == 1 else None
+
+    def resolve_table2(self, mi: ModInfo, name: str, _depth: int = 0):
+        """A module-level name (own, or imported from a module of the package) bound once to a constant table - a tuple,
+        set or dict display, or frozenset/tuple/set/dict(<display>) - that nothing in the package writes to:
+        (its AST, the module it lives in), else None."""
+        if _depth > 4:
+            return None
+        if name in mi.assigns:
+            v = mi.assigns[name]
+            if isinstance(v, ast.Call) and isinstance(v.func, ast.Name) and v.func.id in ("frozenset", "tuple") and len(v.args) == 1 and not v.keywords and isinstance(v.args[0], (ast.Tuple, ast.List, ast.Set)):
+                v = ast.Tuple(elts=list(v.args[0].elts), ctx=ast.Load())
+
+            def joined(e, depth=0):
+                """A + B of two tuple tables (names or displays): the display of all their items"""
+                if isinstance(e, ast.Tuple):
+                    return list(e.elts)
+                if isinstance(e, ast.Name) and depth < 4:
+                    r_ = self.resolve_table2(mi, e.id, _depth + 1)
+                    if r_ is not None and isinstance(r_[0], ast.Tuple) and r_[1] is mi:
+                        return list(r_[0].elts)
+                    return None
+                if isinstance(e, ast.BinOp) and isinstance(e.op, ast.Add) and depth < 4:
+                    l_, r_ = joined(e.left, depth + 1), joined(e.right, depth + 1)
+                    return None if l_ is None or r_ is None else l_ + r_
+                return None
+
+            if isinstance(v, ast.BinOp):
+                items = joined(v)
+                if items is not None:
+                    v = ast.Tuple(elts=items, ctx=ast.Load())
+            if not isinstance(v, (ast.Tuple, ast.Dict, ast.Set)):
+                return None
+            binds = 0
+            for st in ast.walk(mi.tree):
+                if isinstance(st, (ast.Assign, ast.AnnAssign, ast.AugAssign)):
+                    tg = st.targets if isinstance(st, ast.Assign) else [st.target]
+                    binds += sum(1 for t in tg for x in ast.walk(t) if isinstance(x, ast.Name) and x.id == name)
+                elif isinstance(st, ast.Global) and name in st.names:
+                    return None
+            if binds != 1:
+                return None
+            if isinstance(v, (ast.Dict, ast.Set)):
+                # a mutable table counts as constant only if nothing writes into it (item store, del, mutating method)
+                for m in self.modules.values():
+                    for node in ast.walk(m.tree):
+                        tgt = None
+                        if isinstance(node, (ast.Assign, ast.AugAssign, ast.Delete)):
+                            for t in (node.targets if isinstance(node, (ast.Assign, ast.Delete)) else [node.target]):
+                                if isinstance(t, ast.Subscript):
+                                    tgt = t.value
+                        elif isinstance(node, ast.Call) and isinstance(node.func, ast.Attribute) and node.func.attr in ("update", "pop", "popitem", "clear", "setdefault", "add", "remove", "discard", "__setitem__", "__delitem__"):
+                            tgt = node.func.value
+                        if tgt is not None:
+                            last = tgt.attr if isinstance(tgt, ast.Attribute) else tgt.id if isinstance(tgt, ast.Name) else None
+                            if last == name:
+                                return None
+            return (v, mi)
+        tgt = mi.imports.get(name)
+        if tgt and "." in tgt:
+            modname, _, attr = tgt.rpartition(".")
+            m = self.modules.get(modname)
+            if m is not None:
+                return self.resolve_table2(m, attr, _depth + 1)
+        return None
 
     def resolve_dotted(self, dotted: str, _depth: int = 0) -> Optional[object]:
         if _depth > 6:
